@@ -46,6 +46,9 @@ def gen(tier, seed):
     add("kinetics_mixed", "c04-kinetics-mixed-units", "kinetics_mixed_units(u1, u2, g)", ["pre: 0 <= u1 <= 10 and 0 <= u2 <= 10 and 0 <= g <= 1"],
         "per-environment dictionaries (D, rate constants) whose entries are written in two different catalogue systems: the Python rate of change (compute_dstatedt, SI) equals that of the same model in bare default-unit numbers, with neighbouring cells in the two environments (grid and graph)",
         "u1: int, u2: int, g: int", viol="the rate of change depends on the units in which per-environment entries are written")
+    add("abi_k_mixed", "c04-abi-mixed-units", "abi_k_mixed(u1, u2, opt, g)", ["pre: 0 <= u1 <= 10 and u2 == (u1 * 3 + 4) % 11 and 0 <= opt <= 2 and 0 <= g <= 1"],
+        "the rate-constant and diffusion vectors handed to the native engine are the same numbers whether the per-environment entries are written in bare default-unit numbers or in two different catalogue systems (3 environments, reactions of order 1 and 2, grid and graph, 3 engine kinds)",
+        "u1: int, u2: int, opt: int, g: int", viol="what reaches the engine depends on the units in which per-environment entries are written")
     add("abi", "c04-abi", "abi_invariance(lv, u, eu, opt, ex, g)", ["pre: 0 <= lv <= 4 and 0 <= u <= 10 and 0 <= eu <= 10 and 0 <= opt <= 2 and 0 <= ex <= 2 and 0 <= g <= 1" if tier != "quick" else
                                                                      "pre: 0 <= lv <= 4 and 0 <= u <= 10 and eu == (u * 5 + lv) % 11 and 0 <= opt <= 2 and ex == (u + lv) % 3 and 0 <= g <= 1"],
         "the arrays handed to the native engine (state, volume, k, D, sample times, t_max, dt, interval), re-expressed in SI, do not depend on the units used to describe the script, for every engine kind and output units system",
